@@ -2459,6 +2459,38 @@ class Processor:
                     continue
 
                 if next_coord.node is None:
+                    # A null is an empty placeholder.  When more of the YAML
+                    # Path follows with plain Keys or Indexes, the missing
+                    # structure must grow in its place; relaying the null
+                    # would present it as though it were the requested leaf
+                    # and the value would be written to the wrong node.
+                    null_parent = next_coord.parent
+                    null_ref = next_coord.parentref
+                    if (len(segments) > depth + 1
+                            and segments[depth + 1][0] in [
+                                PathSegmentTypes.INDEX,
+                                PathSegmentTypes.KEY]
+                            and isinstance(null_parent, (dict, list))
+                            and not isinstance(null_ref, (list, dict))):
+                        self.logger.debug((
+                            "Growing a None element <{}>{} in the data."
+                            ).format(segment_type, except_segment),
+                            prefix="Processor::_get_optional_nodes:  ",
+                            data=next_coord
+                        )
+                        null_parent[null_ref] = Nodes.build_next_node(
+                            yaml_path, depth + 1, value)
+                        for node_coord in self._get_optional_nodes(
+                                null_parent[null_ref], yaml_path, value,
+                                depth + 1, parent=null_parent,
+                                parentref=null_ref,
+                                translated_path=next_coord.path,
+                                ancestry=next_coord.ancestry,
+                                relay_segment=pathseg
+                        ):
+                            yield node_coord
+                        continue
+
                     self.logger.debug((
                         "Relaying a None element <{}>{} from the data."
                         ).format(segment_type, except_segment),
